@@ -1,7 +1,11 @@
 ----------------------------- MODULE SessionsMC -----------------------------
 (* Closed system around Sessions: a bounded set of clients that create sessions, send heartbeats, *)
 (* close sessions, let the clock tick, change the leader and write / delete / range-delete the   *)
-(* same few keys - in every interleaving, including between the two steps of a cleanup.          *)
+(* same few keys - in every interleaving, including between the two steps of a cleanup.  A       *)
+(* leader change elects a node whose DB lags the log by 0..MaxLag entries; with Fills # {} the    *)
+(* shard may first be populated with m plain records so that the range deletes of the alphabet    *)
+(* cover m, m+1 or m+2 keys - around the threshold (100) where the code changes its strategy -   *)
+(* with session-owned keys in front of and behind the block.                                      *)
 (*  - exhaustively (VIEW hides the history): the C14 properties in every state / on every step;  *)
 (*  - as generator of behaviours replayed on a real RF=1 leader controller: `hist` records every *)
 (*    call with the outcome and the observable state the specification demands after it.         *)
@@ -13,15 +17,17 @@ CONSTANTS MaxN,       \* offsets (writes incl. session creation and cleanup writ
           MaxHb,      \* KeepAlive calls per behaviour
           MaxLc,      \* leader changes per behaviour
           KeySet,     \* "ab" | "abe" (with the empty key) | "abs" (with a key that needs escaping)
+          Fills,      \* sizes m offered to Fill(m) as the first call of a behaviour ({}: never populated)
           Timeouts,   \* session timeouts in ticks
           Guarded,    \* TRUE: properties are claimed outside the known finding only (kf = {})
           RunDepth,   \* "runs" export: length of the simulated behaviours
           AvoidRace,  \* TRUE: clients do not write in the known-finding pattern (long behaviours stay judged)
-          Export      \* "none" | "steps" | "runs"
+          Export      \* "none" | "steps" | "lagsteps" | "fillsteps" | "runs"
 
-VARIABLES sys, nhb, nlc, kf, hist
-mvars == <<sys, nhb, nlc, kf, hist>>
-View  == <<sys, nhb, nlc, kf>>
+VARIABLES sys, nhb, nlc, kf, base, hist
+mvars == <<sys, nhb, nlc, kf, base, hist>>
+\* (the kept tail of the log is only read by a leader change: once none is left it is not part of the state)
+View  == <<[sys EXCEPT !.back = IF nlc < MaxLc THEN @ ELSE <<>>], nhb, nlc, kf, base>>
 
 Ka  == <<97>>
 Kb  == <<98>>
@@ -34,14 +40,20 @@ PutOf(k, v, se) == [key |-> k, val |-> v, exp |-> NoExp, sess |-> se, cid |-> ""
 
 \* sessions a client may name: every session ever created (live or dead)
 SessIds == DOMAIN sys.tmo
+\* range deletes: everything; on a populated shard also the block of filler records alone ["a-", "a.") and
+\* the block with what follows it ["a-", "z") (the same number of keys, but the client keys at other ranks)
+Ranges == {[s |-> <<>>, e |-> Kz]}
+          \cup (IF base > 0 THEN {[s |-> <<97, DASH>>, e |-> <<97, 46>>], [s |-> <<97, DASH>>, e |-> Kz]} ELSE {})
 ClientReqs ==
     {[NoReq EXCEPT !.puts = <<PutOf(k, 10 * (sys.n + 1), se)>>] : k \in Keys, se \in {NoSess} \cup SessIds}
     \cup {[NoReq EXCEPT !.dels = <<[key |-> k, exp |-> NoExp]>>] : k \in Keys}
-    \cup {[NoReq EXCEPT !.rngs = <<[s |-> <<>>, e |-> Kz]>>]}
+    \cup {[NoReq EXCEPT !.rngs = <<r>>] : r \in Ranges}
 
 \* one recorded step: the call, the demanded outcome and the demanded observable state after it
-Rec(r, name, to) ==
-    [a |-> name, s |-> r.s, to |-> to, out |-> r.out, off |-> r.off, ts |-> r.ts, req |-> r.req, err |-> "",
+\* (arg: the timeout of Create, the lag of LeaderChange, the size of Fill)
+Rec(r, name, arg) ==
+    [a |-> name, s |-> r.s, to |-> IF name = "Create" THEN arg ELSE 0, lag |-> IF name = "LeaderChange" THEN arg ELSE 0,
+     fill |-> IF name = "Fill" THEN arg ELSE 0, out |-> r.out, off |-> r.off, ts |-> r.ts, req |-> r.req, err |-> "",
      kf |-> kf' # {}, res |-> r.res, nf |-> r.nf, gets |-> <<>>, lists |-> <<>>] @@ SessObserve(r.sys)
 \* (without export only the last call is kept, in the form the step properties read)
 Brief(r, name) == [a |-> name, s |-> r.s, req |-> r.req, res |-> r.res]
@@ -49,27 +61,34 @@ Brief(r, name) == [a |-> name, s |-> r.s, req |-> r.req, res |-> r.res]
 Step(r, name, to) == /\ sys' = r.sys
                      /\ hist' = IF Export = "none" THEN <<Brief(r, name)>> ELSE Append(hist, Rec(r, name, to))
 
-MInit == sys = Sys0 /\ nhb = 0 /\ nlc = 0 /\ kf = {} /\ hist = <<>>
+MInit == sys = Sys0 /\ nhb = 0 /\ nlc = 0 /\ kf = {} /\ base = 0 /\ hist = <<>>
 
-CanWrite == sys.n < MaxN
+\* MaxN counts the offsets after the population
+CanWrite == sys.n < base + MaxN
+
+Fill     == \E m \in Fills : sys = Sys0 /\ nlc = 0 /\ UNCHANGED <<nhb, nlc, kf>>
+                              /\ LET r == DoFill(sys, m) IN base' = r.sys.n /\ Step(r, "Fill", m)
 
 Create   == \E to \in Timeouts : CanWrite /\ Cardinality(DOMAIN sys.tmo) < MaxSess
-                                 /\ UNCHANGED <<nhb, nlc, kf>> /\ Step(DoCreate(sys, to), "Create", to)
-KeepAlive == \E s \in SessIds : nhb < MaxHb /\ nhb' = nhb + 1 /\ UNCHANGED <<nlc, kf>>
+                                 /\ UNCHANGED <<nhb, nlc, kf, base>> /\ Step(DoCreate(sys, to), "Create", to)
+KeepAlive == \E s \in SessIds : nhb < MaxHb /\ nhb' = nhb + 1 /\ UNCHANGED <<nlc, kf, base>>
                                 /\ Step(DoKeepAlive(sys, s), "KeepAlive", 0)
-Tick     == sys.now < MaxTick /\ UNCHANGED <<nhb, nlc, kf>> /\ Step(DoTick(sys), "Tick", 0)
+Tick     == sys.now < MaxTick /\ UNCHANGED <<nhb, nlc, kf, base>> /\ Step(DoTick(sys), "Tick", 0)
 \* (closing a session the manager does not know shares the budget of the heartbeats)
-CloseBegin == \E s \in SessIds : CloseBeginEnabled(sys, s) /\ UNCHANGED <<nlc, kf>>
+CloseBegin == \E s \in SessIds : CloseBeginEnabled(sys, s) /\ UNCHANGED <<nlc, kf, base>>
                                  /\ (IF Armed(sys, s) THEN nhb' = nhb ELSE (nhb < MaxHb /\ nhb' = nhb + 1))
                                  /\ Step(DoCloseBegin(sys, s), "CloseBegin", 0)
-Cleanup  == \E s \in DOMAIN sys.pend : CanWrite /\ UNCHANGED <<nhb, nlc, kf>> /\ Step(DoCleanup(sys, s), "Cleanup", 0)
-Write    == \E req \in ClientReqs : CanWrite /\ UNCHANGED <<nhb, nlc>> /\ (AvoidRace => ~Race(sys, req))
+Cleanup  == \E s \in DOMAIN sys.pend : CanWrite /\ UNCHANGED <<nhb, nlc, kf, base>> /\ Step(DoCleanup(sys, s), "Cleanup", 0)
+Write    == \E req \in ClientReqs : CanWrite /\ UNCHANGED <<nhb, nlc, base>> /\ (AvoidRace => ~Race(sys, req))
                                     /\ kf' = (IF Race(sys, req) THEN kf \cup {"sessCleanupRace"} ELSE kf)
                                     /\ Step(DoWrite(sys, req), "Write", 0)
-LeaderChange == LeaderChangeEnabled(sys) /\ nlc < MaxLc /\ nlc' = nlc + 1 /\ UNCHANGED <<nhb, kf>>
-                /\ Step(DoLeaderChange(sys), "LeaderChange", 0)
+\* the elected node's DB lags the log by 0 .. MaxLag entries (never across the population of the shard)
+LeaderChange == \E lag \in 0..MaxLag :
+                   /\ LeaderChangeEnabled(sys) /\ nlc < MaxLc /\ LagOK(sys, lag) /\ lag <= sys.n - base
+                   /\ nlc' = nlc + 1 /\ UNCHANGED <<nhb, kf, base>>
+                   /\ Step(DoLeaderChange(sys, lag), "LeaderChange", lag)
 
-MNext == Create \/ KeepAlive \/ Tick \/ CloseBegin \/ Cleanup \/ Write \/ LeaderChange
+MNext == Fill \/ Create \/ KeepAlive \/ Tick \/ CloseBegin \/ Cleanup \/ Write \/ LeaderChange
 
 MSpec == MInit /\ [][MNext]_mvars
 
@@ -78,11 +97,17 @@ Cur == hist'[Len(hist')]
 Claimed == Guarded => kf' = {}
 
 Inv == (Guarded => kf = {}) => StateProps(sys)
+\* the merge-sorted observation is the observation of OxiaDb (checked where the states are small)
+ObsSame == base = 0 => FastObserve(sys.st) = Observe(sys.st)
 Steps == [][ Claimed => StepProps(sys, Cur, sys') ]_mvars
 
 \* the bound on offsets must not hide a pending cleanup: used by the "runs" export only
 Quiet == DOMAIN sys.pend = {}
 
-ExportSteps == (Export = "steps") => PrintT(<<"STEP", ToJson(hist')>>)
+\* "steps": one behaviour per transition; "lagsteps": only those in which a node with a lagging DB was elected;
+\* "fillsteps": only those on a populated shard
+ExportSteps == (\/ Export = "steps"
+                \/ (Export = "lagsteps" /\ \E i \in 1..Len(hist') : hist'[i].lag > 0)
+                \/ (Export = "fillsteps" /\ base' > 0)) => PrintT(<<"STEP", ToJson(hist')>>)
 ExportRuns  == (Export = "runs" /\ TLCGet("level") >= RunDepth) => PrintT(<<"RUN", ToJson(hist)>>)
 =============================================================================
